@@ -906,7 +906,10 @@ def _case(draw):
         vb[draw(st.integers(0, n - 1))] = draw(_value)
     else:
         vb = draw(st.lists(_value, min_size=n, max_size=n))
-    return {"op": name, "idents": I, "values": [va, vb]}
+    case = {"op": name, "idents": I, "values": [va, vb]}
+    if draw(st.integers(0, 5)) == 0:
+        case["fail_at"] = draw(st.integers(1, 6))     # the k-th statement fails at the driver
+    return case
 
 
 def strategy(tier):
@@ -940,6 +943,14 @@ def enumerate_cases(tier):
                 va = [ADVERSARIAL[(k + 3 * i) % len(ADVERSARIAL)] for i in range(n)]
                 vb = [ADVERSARIAL[(k + 7 + 5 * i) % len(ADVERSARIAL)] for i in range(n)]
                 yield {"op": name, "idents": I, "values": [va, vb]}
+            if vi == 0:
+                # fault injection: the k-th statement of the operation fails at the driver, so that the
+                # statements issued on the error-handling paths are captured and judged too
+                va = [ADVERSARIAL[(3 * i) % len(ADVERSARIAL)] for i in range(n)]
+                vb = [ADVERSARIAL[(7 + 5 * i) % len(ADVERSARIAL)] for i in range(n)]
+                nst = len(_execute(o, I, _benign(n)).stmts)
+                for fa in range(1, min(nst, 8 if tier == "thorough" else 4) + 1):
+                    yield {"op": name, "idents": I, "values": [va, vb], "fail_at": fa}
 
 
 ENUM_EXHAUSTIVE = False
@@ -952,7 +963,7 @@ class _Run:
     __slots__ = ("stmts", "exc", "vals", "sent", "allowed")
 
 
-def _execute(o, I, V):
+def _execute(o, I, V, fail_at=None):
     import uuid
     import fim.graph.neo4j_property_graph as npg
     from fim.graph.networkx_property_graph import NetworkXGraphStorage
@@ -981,6 +992,7 @@ def _execute(o, I, V):
         if o["name"] != "importer.init":
             E.imp                   # connect + index bootstrap are judged by the importer.init operation only
             del E.rec.statements[:]
+        E.rec.fail_at = fail_at
         try:
             o["call"](E, I, list(V))
         except Exception as e:      # library failures are data here; the statements issued so far are still judged
@@ -1024,7 +1036,8 @@ def run_case(case):
         vecs.append([])
     VA, VB = _fit(vecs[0], n, "a"), _fit(vecs[1], n, "b")
     V0 = _benign(n)
-    r0, ra, rb = _execute(o, I, V0), _execute(o, I, VA), _execute(o, I, VB)
+    fa = case.get("fail_at")
+    r0, ra, rb = _execute(o, I, V0, fa), _execute(o, I, VA, fa), _execute(o, I, VB, fa)
 
     v, seen = [], set()
 
@@ -1141,6 +1154,10 @@ def run_case(case):
         labels.append("no-values")
     labels.append("stmts:" + ("0" if not r0.stmts else "1" if len(r0.stmts) == 1 else "2-5" if len(r0.stmts) <= 5
                               else "6+"))
+    if case.get("fail_at"):
+        labels.append("driver-fault-injected")
+        if len(r0.stmts) > case["fail_at"]:
+            labels.append("statements-after-fault")
     nt = n >= 1 and ("'" in joined or '"' in joined or "\\" in joined)
     return {"v": v, "nt": bool(nt), "labels": labels}
 
